@@ -140,6 +140,10 @@ func c02Write(v Version, human bool, seekable bool, user, owner string, variant 
 			}
 		}
 		ref := w.Alloc()
+		if (i+variant)%4 == 1 {
+			// a stream object with a non-zero generation number
+			ref = NewReference(ref.Number(), uint16(1+(i*37+variant)%65534))
+		}
 		dict := Dict{"Idx": Integer(i), "Note": String("a string in the stream dictionary"), "Deep": Dict{"S": Array{String("nested \x00(")}}}
 		sw, err := w.OpenStream(ref, dict, ch...)
 		if err != nil {
@@ -310,6 +314,96 @@ func TestB2C02RoundTrip(t *testing.T) {
 	t.Logf("B2-CASES %d", cases)
 }
 
+// TestB2C02HostileBodies: stream bodies that only a correct /Length delimits (a line that
+// quotes the keyword endstream, data ending in CR, data ending in the keyword), written in
+// several chunks around the 1024-byte buffering threshold, to seekable and other sinks.
+func TestB2C02HostileBodies(t *testing.T) {
+	cases := 0
+	filler := bytes.Repeat([]byte("0 0 m 100 100 l S % filler line\n"), 45)
+	bodies := [][]byte{
+		append(append([]byte{}, filler...), []byte("(quoted)\nendstream\n% more data after the quoted keyword\nQ\n")...),
+		append(append([]byte{}, filler...), []byte("ends in a carriage return\r")...),
+		append(append([]byte{}, filler...), []byte("ends in the keyword\rendstream\r")...),
+		append([]byte("short\nendstream\nshort"), filler[:100]...),
+	}
+	for _, v := range []Version{V1_4, V1_7} {
+		for _, seekable := range []bool{false, true} {
+			for bi, body := range bodies {
+				for _, chunk := range []int{0, 1, 100, 700, 1023, 1024} {
+					cases++
+					desc := fmt.Sprintf("v=%v seekable=%v body#%d chunk=%d", v, seekable, bi, chunk)
+					var sink io.Writer
+					var buf bytes.Buffer
+					mem := &c02MemSink{}
+					if seekable {
+						sink = mem
+					} else {
+						sink = &buf
+					}
+					w, err := NewWriter(sink, v, nil)
+					if err != nil {
+						t.Fatal(err)
+					}
+					a := w.Alloc()
+					w.GetMeta().Catalog.Pages = a
+					w.Put(a, Dict{"Type": Name("Pages"), "Kids": Array{}, "Count": Integer(0)})
+					ref := w.Alloc()
+					sw, err := w.OpenStream(ref, Dict{})
+					if err != nil {
+						t.Errorf("B2-FAIL hostile-body %s: %v", desc, err)
+						continue
+					}
+					for off := 0; off < len(body); {
+						n := chunk
+						if n == 0 || off+n > len(body) {
+							n = len(body) - off
+						}
+						sw.Write(body[off : off+n])
+						off += n
+					}
+					if err := sw.Close(); err != nil {
+						t.Errorf("B2-FAIL hostile-body %s: close: %v", desc, err)
+						continue
+					}
+					after := w.Alloc()
+					w.Put(after, String("after the stream"))
+					if err := w.Close(); err != nil {
+						t.Errorf("B2-FAIL hostile-body %s: Close: %v", desc, err)
+						continue
+					}
+					data := buf.Bytes()
+					if seekable {
+						data = mem.data
+					}
+					r, err := NewReader(bytes.NewReader(data), int64(len(data)), nil)
+					if err != nil {
+						t.Errorf("B2-FAIL hostile-body %s: open: %v", desc, err)
+						continue
+					}
+					obj, err := r.Get(ref, true)
+					stm, ok := obj.(*Stream)
+					if err != nil || !ok {
+						t.Errorf("B2-FAIL hostile-body %s: %v %v", desc, obj, err)
+						continue
+					}
+					rd, err := DecodeStream(r, nil, stm)
+					var got []byte
+					if err == nil {
+						got, err = io.ReadAll(rd)
+					}
+					if err != nil || !bytes.Equal(got, body) {
+						t.Errorf("B2-FAIL hostile-body %s: wrote %d bytes, read back %d (%v)", desc, len(body), len(got), err)
+					}
+					if o, err := r.Get(after, true); err != nil || !Equal(o, String("after the stream")) {
+						t.Errorf("B2-FAIL hostile-body %s: the object after the stream reads as %v (%v)", desc, o, err)
+					}
+				}
+			}
+		}
+	}
+	t.Logf("B2-CASES %d", cases)
+}
+
 // TestB2C02ManyCompressed: more objects in one WriteCompressed call than one object stream
 // may hold for the reader; a sample of them (first, last, both sides of every multiple of
 // 10000) must read back.
@@ -352,6 +446,107 @@ func TestB2C02ManyCompressed(t *testing.T) {
 			if err != nil || !Equal(got, objs[i]) {
 				t.Errorf("B2-FAIL many-compressed n=%d: object %d of the call reads back as %v (%v)", n, i, AsString(got), err)
 				break
+			}
+		}
+	}
+	t.Logf("B2-CASES %d", cases)
+}
+
+// c02MemSink is a seekable in-memory sink.
+type c02MemSink struct {
+	data []byte
+	pos  int64
+}
+
+func (s *c02MemSink) Write(p []byte) (int, error) {
+	if end := s.pos + int64(len(p)); end > int64(len(s.data)) {
+		s.data = append(s.data, make([]byte, end-int64(len(s.data)))...)
+	}
+	copy(s.data[s.pos:], p)
+	s.pos += int64(len(p))
+	return len(p), nil
+}
+
+func (s *c02MemSink) Seek(off int64, whence int) (int64, error) {
+	switch whence {
+	case io.SeekStart:
+		s.pos = off
+	case io.SeekCurrent:
+		s.pos += off
+	case io.SeekEnd:
+		s.pos = int64(len(s.data)) + off
+	}
+	return s.pos, nil
+}
+
+// TestB2C03Large: many objects of irregular size, so that the cross-reference data itself
+// is large (a compressed cross-reference stream of more than 1024 bytes on a sink that
+// cannot seek); checked by the strict parser and read back.
+func TestB2C03Large(t *testing.T) {
+	cases := 0
+	for _, v := range []Version{V1_4, V1_7, V2_0} {
+		for _, seekable := range []bool{false, true} {
+			cases++
+			var sink io.Writer
+			var buf bytes.Buffer
+			mem := &c02MemSink{}
+			if seekable {
+				sink = mem
+			} else {
+				sink = &buf
+			}
+			w, err := NewWriter(sink, v, nil)
+			if err != nil {
+				t.Fatal(err)
+			}
+			a := w.Alloc()
+			w.GetMeta().Catalog.Pages = a
+			w.Put(a, Dict{"Type": Name("Pages"), "Kids": Array{}, "Count": Integer(0)})
+			x := uint32(88172645)
+			want := map[Reference]int{}
+			for i := 0; i < 1500; i++ {
+				x ^= x << 13
+				x ^= x >> 17
+				x ^= x << 5
+				n := int(x>>8) % 300
+				ref := w.Alloc()
+				want[ref] = n
+				if err := w.Put(ref, String(bytes.Repeat([]byte{byte('a' + i%26)}, n))); err != nil {
+					t.Errorf("B2-FAIL large-document v=%v: Put: %v", v, err)
+				}
+			}
+			if err := w.Close(); err != nil {
+				t.Errorf("B2-FAIL large-document v=%v seekable=%v: Close: %v", v, seekable, err)
+				continue
+			}
+			data := buf.Bytes()
+			if seekable {
+				data = mem.data
+			}
+			if err := c03Check(data); err != nil {
+				t.Errorf("B2-FAIL structure large document v=%v seekable=%v: %v", v, seekable, err)
+			}
+			// nothing but white space, "startxref", the offset and %%EOF may follow the last
+			// cross-reference section
+			tail := data[bytes.LastIndex(data, []byte("endobj"))+6:]
+			if v >= V1_5 && !regexp.MustCompile(`^\s*startxref\s+\d+\s+%%EOF\s*$`).Match(tail) {
+				t.Errorf("B2-FAIL structure large document v=%v seekable=%v: after the cross-reference stream: %.80q", v, seekable, tail)
+			}
+			r, err := NewReader(bytes.NewReader(data), int64(len(data)), nil)
+			if err != nil {
+				t.Errorf("B2-FAIL large-document v=%v seekable=%v: open: %v", v, seekable, err)
+				continue
+			}
+			k := 0
+			for ref, n := range want {
+				if k++; k%37 != 0 {
+					continue
+				}
+				got, err := r.Get(ref, true)
+				if s, ok := got.(String); err != nil || !ok || len(s) != n {
+					t.Errorf("B2-FAIL large-document v=%v seekable=%v: %v reads back as %v (%v)", v, seekable, ref, AsString(got), err)
+					break
+				}
 			}
 		}
 	}
